@@ -290,13 +290,13 @@ def run(ctx):
 
         if role == "autograd":
             if affine:
-                def fn():
-                    qn = qp.QNode(qf, dev, diff_method="parameter-shift", max_diff=2)
+                def fn(**qkw):
+                    qn = qp.QNode(qf, dev, diff_method="parameter-shift", max_diff=2, **qkw)
                     dims = [len(v) for v in R.measure(R.state_from_gate_params(R.gate_params(x)))]
                     offs = np.cumsum([0] + dims)
                     blocks = [Hx[offs[k]:offs[k + 1]] for k in range(nmeas)]
                     return _mat_from_qnode_hessian(G.param_shift_hessian(qn)(pnp.array(x, requires_grad=True)), nmeas, n_in, blocks)
-                judge("hess.qnode", "autograd", "param_shift_hessian(qnode)", fn, Hx, spec, desc, x)
+                judge("hess.qnode", "autograd", "param_shift_hessian(qnode)", fn, Hx, spec, desc, x, fn_nocache=lambda fn=fn: fn(cache=False))
             for dm in ("parameter-shift", "backprop"):
                 def fn(dm=dm, **qkw):
                     qn = qp.QNode(qf, dev, interface="autograd", diff_method=dm, max_diff=2, **qkw)
